@@ -199,7 +199,7 @@ impl Atom {
 }
 
 fn gen_rows(rng: &mut Rng, thorough: bool) -> Vec<Vec<M>> {
-    let sizes: &[usize] = if thorough { &[0, 1, 2, 3, 4, 5, 7, 8, 9, 15, 16, 17, 63, 64, 65, 300, 1030] } else { &[0, 1, 2, 3, 4, 5, 7, 8, 9, 16, 17, 33, 65, 130] };
+    let sizes: &[usize] = if thorough { &[0, 1, 2, 3, 4, 5, 7, 8, 9, 15, 16, 17, 63, 64, 65, 300, 1030] } else { &[0, 1, 2, 3, 4, 5, 7, 8, 9, 16, 17, 33, 65, 130, 1024, 1500, 2048] };
     let n = *rng.pick(sizes);
     let null_pct = *rng.pick(&[0u64, 0, 10, 30, 100]);
     let null_col = rng.usize(5); // one column gets the chosen density, the others 10 %
@@ -249,7 +249,8 @@ fn gen_where(rng: &mut Rng) -> Vec<Atom> {
                 3 => M::Dbl(*rng.pick(&[0.0, 0.5, 1.0, 2.25, -3.0])),
                 4 => M::Str(rng.pick(&["a", "b", "ab", ""]).to_string()),
                 _ => {
-                    if rng.chance(1, 10) { M::Null } else { M::Int(rng.range(-3, 4)) }
+                    // integer columns are also compared with non-integral literals (4.5)
+                    if rng.chance(1, 10) { M::Null } else if rng.chance(1, 5) { M::Dbl(rng.range(-3, 4) as f64 + 0.5) } else { M::Int(rng.range(-3, 4)) }
                 }
             };
             if rng.chance(1, 5) {
